@@ -155,7 +155,8 @@ class Gen:
             return ['(%s +  # why' % a, ind + '        %s)' % b]
         if k == 1:
             return ['%s + \\' % a, ind + '    %s' % b]
-        return ['(', ind + '    # lead', ind + '    %s,' % a, '', ind + '    %s, %s)' % (b, c)]
+        # (subscripted: a tuple VALUE used in later arithmetic hits crash class K1)
+        return ['(', ind + '    # lead', ind + '    %s,' % a, '', ind + '    %s, %s)[1]' % (b, c)]
 
     def noise(self, ind):
         """comment / blank / form-feed lines"""
